@@ -1177,8 +1177,10 @@ func findInjectorBuild(info *types.Info, fn *ast.FuncDecl) (*ast.CallExpr, error
 func isWireImport(path string) bool {
 	// TODO(light): This is depending on details of the current loader.
 	const vendorPart = "vendor/"
-	if i := strings.LastIndex(path, vendorPart); i != -1 && (i == 0 || path[i-1] == '/') {
-		path = path[i+len(vendorPart):]
+	if i := strings.LastIndex(path, "/"+vendorPart); i != -1 {
+		path = path[i+len("/"+vendorPart):]
+	} else if strings.HasPrefix(path, vendorPart) {
+		path = path[len(vendorPart):]
 	}
 	return path == "github.com/google/wire"
 }
